@@ -1445,13 +1445,42 @@ func (f *formatter) ExprTernary(n *ast.ExprTernary) {
 	n.IfFalse.Accept(f)
 }
 
+// startsWithSign reports whether the text of n begins with the given sign
+// character: "- -$a" and "- --$a" must not be written "--$a" and "---$a".
+func startsWithSign(n ast.Vertex, minus bool) bool {
+	for {
+		switch nn := n.(type) {
+		case *ast.ExprUnaryMinus, *ast.ExprPreDec:
+			return minus
+		case *ast.ExprUnaryPlus, *ast.ExprPreInc:
+			return !minus
+		case *ast.ExprBinaryPow:
+			n = nn.Left
+		case *ast.ExprPostInc:
+			n = nn.Var
+		case *ast.ExprPostDec:
+			n = nn.Var
+		case *ast.ExprInstanceOf:
+			n = nn.Expr
+		default:
+			return false
+		}
+	}
+}
+
 func (f *formatter) ExprUnaryMinus(n *ast.ExprUnaryMinus) {
 	n.MinusTkn = f.newToken('-', []byte("-"))
+	if startsWithSign(n.Expr, true) {
+		f.addFreeFloating(token.T_WHITESPACE, []byte(" "))
+	}
 	n.Expr.Accept(f)
 }
 
 func (f *formatter) ExprUnaryPlus(n *ast.ExprUnaryPlus) {
 	n.PlusTkn = f.newToken('+', []byte("+"))
+	if startsWithSign(n.Expr, false) {
+		f.addFreeFloating(token.T_WHITESPACE, []byte(" "))
+	}
 	n.Expr.Accept(f)
 }
 
